@@ -536,11 +536,13 @@ def _gen_lifecycle(rng, tier):
             g.ops.append(["finish", k])
         elif r < 0.58:
             g.ops.append(["inject", rng.randrange(2, N_OBJ), rng.randrange(3), rng.randrange(4), rng.randrange(N_OBJ)])
-        elif r < 0.7:
+        elif r < 0.66:
             g.ops.append(["fornode", rng.choice(WFS), rng.randrange(6), rng.randrange(2 * N_OBJ)])
-        elif r < 0.8:
+        elif r < 0.74:
+            g.ops.append(["reload", rng.choice([2, 3, 4, 5, 6, 7, 8, 9, 12])])
+        elif r < 0.82:
             g.ops.append(["runwf", rng.choice(WFS)])
-        elif r < 0.88:
+        elif r < 0.89:
             g.odisc(rng.choice(COMPOSITES))
         else:
             g.any_op()
@@ -1390,7 +1392,7 @@ def _run_impl(case, T):
             st["trace"] = trace_lines()
         if res.startswith("exc:") or res in ("typeErr", "connErr", "locked"):
             rep = None
-        if op[0] in ("odisc", "query") and res != "malformed":
+        if op[0] in ("odisc", "query") and res not in ("malformed", "skip"):
             try:
                 fl = flags(objs[op[1]])
             except Exception as e:  # noqa: BLE001
